@@ -58,6 +58,7 @@ pub fn gen(seed: u64, tier: Tier) -> ScenarioSpec {
         spec.knobs.insert("resume".into(), 1);
     }
     spec.knobs.insert("recheck_every".into(), *rng.pick(&[0i64, 0, 7, 50]));
+    spec.knobs.insert("prelude".into(), gen_prelude(&mut rng, &[1, 4, 5], 8));
     spec
 }
 
@@ -65,6 +66,7 @@ pub fn run(spec: &ScenarioSpec, ctx: &mut Ctx) -> Result<(), Violation> {
     let m = recorder::build(&spec.recorder);
     ctx.rep.sim_time_ns += m.sim_time_ns();
     shape_of_model(ctx, &m, spec);
+    prelude(spec.knob("prelude"), spec.seed, &m, ctx);
     ctx.shape("live", match &spec.live { None => 0, Some(l) => 1 + matches!(l.chunking, Chunking::Frame) as u64 + 2 * matches!(l.chunking, Chunking::Flush(_)) as u64 + 4 * l.drop_at.is_some() as u64 });
     s2::run(spec, &m, ctx, P, s2::Flags { model_rows: true, row_view: false, protocol: true, final_equiv: true })
 }
